@@ -143,13 +143,21 @@ func TravelerPathLookup(traveler gdbi.Traveler, path string) interface{} {
 }
 
 // TravelerSetValue(travler, "$gene.symbol.ensembl", "hi") inserts the value in the location"
-func TravelerSetValue(traveler gdbi.Traveler, path string, val interface{}) error {
+func TravelerSetValue(traveler gdbi.Traveler, path string, val interface{}) (err error) {
 	namespace := GetNamespace(path)
 	field := GetJSONPath(path)
 	if field == "" {
 		return nil
 	}
 	doc := GetDoc(traveler, namespace)
+	// the jsonpath library panics on some path/value combinations it cannot set
+	// (e.g. a nil value at an index path); callers run inside processor goroutines,
+	// where a panic takes the whole server down
+	defer func() {
+		if r := recover(); r != nil {
+			err = fmt.Errorf("unable to set %s: %v", path, r)
+		}
+	}()
 	return jsonpath.JsonPathSet(doc, field, val)
 }
 
